@@ -13,14 +13,14 @@ RULE = (
     "cases are input strings: (a) every string up to length L over the alphabet "
     "'a : / ? # @ \\ % [ ] . SP 1' bare and behind 'http://' (L=5 quick, 6 thorough; distinct by construction), "
     "(b) Hypothesis grammar-built URLs with hostile components plus one random splice, (c) Hypothesis unicode text "
-    "incl. lone surrogates, (e) 37 repetition shapes for the running-time clause. Non-trivial = the string holds "
+    "incl. lone surrogates, (e) 37 hand-written repetition shapes plus a grid of 6656 pumped shapes prefix + unit*n + suffix for the running-time clause. Non-trivial = the string holds "
     ">= 2 different delimiter characters of ':/?#@\\[]', or a '%', or a non-ASCII character. Distinctness by "
     "64-bit hash of the string for (b)/(c)."
 )
 ASSUMPTIONS = [
     "reference reading (vlib/refurl.py) is a correct RFC 3986 split incl. urllib3's documented scheme-less rule",
     "the 'idna' package is the reference for IDNA A-labels",
-    "running-time clause: CPU time (process_time, min of 3) at n=1e3,1e4,1e5; super-linear iff t(1e5)>0.5s and t(1e5)/t(1e4)>25",
+    "running-time clause: CPU time (process_time, min of 3) at n=1e3,1e4,1e5; super-linear iff t(1e5)>0.5s and t(1e5)/t(1e4)>25; the 6656 pumped shapes prefix+unit*n+suffix are first screened at n=30/2000/20000 (10 s guard) and measured fully only when suspicious",
     "normal-form clauses are asserted for results whose scheme is http or https (as the property states)",
 ]
 EXHAUSTIVE = {"quick": False, "thorough": False}
@@ -267,18 +267,74 @@ SHAPES = {
 }
 TIME_GUARD_S = 10.0
 
+# pumped shapes prefix + unit * n + suffix over the pieces of URL syntax (the classic way a backtracking pattern or a
+# quadratic loop is provoked: a long run that ALMOST matches, followed by something that makes the match fail)
+GRID_PREFIX = ["", "a:", "//", "http://", "http://a/", "http://a?", "http://a#", "http://u@", "http://u:", "http://a:", "http://[", "http://[::1", "http://[fe80::1%25", "http://[fe80::1%", "http://1.", "http://xn--"]
+GRID_UNIT = ["a", "1", "f", "-", "~", ".", "a.", "1.", ":", "1:", "f:", "/", "@", "%", "%41", "%2", "a%", "[", "]", "\u00e9", "..", "./", "_", "+", "!", "a!"]
+GRID_SUFFIX = ["", "/", "]", "]/", "]x", "]:80", ":x", ":80", "!", "%", "%zz", "@h/", "#", "?", "[", " "]
 
-class _TimeGuard(Exception):
-    pass
+
+def grid_shape(p: int, u: int, x: int):
+    return lambda n: GRID_PREFIX[p] + GRID_UNIT[u] * n + GRID_SUFFIX[x]
 
 
-def check_timing(shape: str, sizes=(1000, 10000, 100000)):
+def screen_timing(fn, label):
+    """Cheap screen for one pumped shape: parse at n=30 (an exponential matcher is already hopeless there), 2000 and
+    20000; only a shape that is suspicious (slow, or growing faster than 30x for 10x the length) gets the full
+    three-point measurement of check_timing.  -> (failures, suspicious?)"""
     import signal
 
     from urllib3.exceptions import LocationParseError
     from urllib3.util.url import parse_url
 
-    fn = SHAPES[shape]
+    def _alarm(signum, frame):
+        raise _TimeGuard()
+
+    try:
+        old = signal.signal(signal.SIGALRM, _alarm)
+    except ValueError:
+        return [], False
+    ts = []
+    try:
+        for n in (30, 2000, 20000):
+            t = time.process_time()
+            try:
+                signal.setitimer(signal.ITIMER_REAL, TIME_GUARD_S)
+                try:
+                    parse_url(fn(n))
+                finally:
+                    signal.setitimer(signal.ITIMER_REAL, 0)
+            except LocationParseError:
+                pass
+            except _TimeGuard:
+                return [Failure("linear-time", {"shape": "grid"}, f"shape {label}: parse_url did not return within {TIME_GUARD_S}s at n={n}")], True
+            except BaseException as e:  # noqa: BLE001
+                return [Failure("totality", {"exc": type(e).__name__}, f"shape {label} n={n}: {type(e).__name__}: {e}")], True
+            ts.append(time.process_time() - t)
+    finally:
+        signal.signal(signal.SIGALRM, old)
+    return [], (ts[2] > 0.25 or (ts[2] > 0.05 and ts[2] / max(ts[1], 1e-5) > 30))
+
+
+class _TimeGuard(Exception):
+    pass
+
+
+def check_timing(shape, sizes=(1000, 10000, 100000)):
+    import signal
+
+    from urllib3.exceptions import LocationParseError
+    from urllib3.util.url import parse_url
+
+    if isinstance(shape, (list, tuple)):
+        if len(shape) != 3 or not (0 <= shape[0] < len(GRID_PREFIX) and 0 <= shape[1] < len(GRID_UNIT) and 0 <= shape[2] < len(GRID_SUFFIX)):
+            raise core.InvalidCase
+        fn = grid_shape(*shape)
+        shape = "grid:%r+%r*n+%r" % (GRID_PREFIX[shape[0]], GRID_UNIT[shape[1]], GRID_SUFFIX[shape[2]])
+    else:
+        if shape not in SHAPES:
+            raise core.InvalidCase
+        fn = SHAPES[shape]
     times = []
     fails = []
 
@@ -413,6 +469,8 @@ def shards(tier: str, seed: int) -> list[dict]:
         out.append({"part": "text", "n": n_c // nsh, "seed": core.derive_seed(seed, "t", i)})
     for shape in SHAPES:
         out.append({"part": "timing", "shape": shape})
+    for p in range(len(GRID_PREFIX)):
+        out.append({"part": "timing-grid", "prefix": p})
     # coverage-guided campaigns (atheris / libFuzzer) over the same two strategies
     from vlib import fuzz
 
@@ -461,6 +519,15 @@ def run_shard(spec: dict):
         from vlib import fuzz
 
         fuzz.run_shard(col, sys.modules[__name__], spec)
+    elif part == "timing-grid":
+        p = spec["prefix"]
+        for u in range(len(GRID_UNIT)):
+            for x in range(len(GRID_SUFFIX)):
+                label = "%r+%r*n+%r" % (GRID_PREFIX[p], GRID_UNIT[u], GRID_SUFFIX[x])
+                fails, suspicious = screen_timing(grid_shape(p, u, x), label)
+                if suspicious and not fails:
+                    fails, _times = check_timing([p, u, x])
+                col.case({"kind": "timing", "shape": [p, u, x]}, True, ["timing-grid"] + (["timing-grid:measured-fully"] if suspicious else []), fails, distinct_by_construction=True)
     elif part == "timing":
         fails, times = check_timing(spec["shape"])
         col.case({"kind": "timing", "shape": spec["shape"]}, True, ["timing"], fails, distinct_by_construction=True)
